@@ -161,6 +161,7 @@ class StepMap(Mappable):
             old_size = self.ranges[i + old_index]
             new_size = self.ranges[i + new_index]
             f(old_start, old_start + old_size, new_start, new_start + new_size)
+            diff += new_size - old_size
             i += 3
 
     def invert(self) -> "StepMap":
